@@ -167,7 +167,9 @@ func (p *valTable) Validators(_ context.Context, opts *api.ValidatorsOpts) (*api
 
 type farProvider struct{}
 
-func (farProvider) FarFutureEpoch(context.Context) (phase0.Epoch, error) { return phase0.Epoch(far), nil }
+func (farProvider) FarFutureEpoch(context.Context) (phase0.Epoch, error) {
+	return phase0.Epoch(far), nil
+}
 
 type domainProvider struct{}
 
@@ -276,7 +278,7 @@ func (w *amWorld) run(_ int, _ int, _ *Role, op *Op) {
 	}
 }
 
-func (w *amWorld) finish(int) string       { return "" }
+func (w *amWorld) finish(int) string      { return "" }
 func (w *amWorld) judge(ev.TB, *Scenario) {}
 func (w *amWorld) close() {
 	if w.stop != nil {
@@ -333,7 +335,7 @@ func (w *vmWorld) run(_ int, _ int, _ *Role, op *Op) {
 	}
 }
 
-func (w *vmWorld) finish(int) string       { return "" }
+func (w *vmWorld) finish(int) string      { return "" }
 func (w *vmWorld) judge(ev.TB, *Scenario) {}
 func (w *vmWorld) close()                 {}
 
